@@ -564,12 +564,110 @@ def main(replay=None):
                                  [x[0] for x in mA["meshes"]], presB, cat, nm, what, "throw" if mt[0] != "0" else "the %s of that name" % cat),
                              dict(kind="reuse", cases=[c], model=[m], impl=[o], names=tblr))
 
+
+    # ---------------- (j) exception codes as exit statuses ------------------------------------------------------------------------
+    edist = {}; emis = 0
+    if rp is None or rp.get("kind") in ("exitcode", "tool"):
+        sys.path.insert(0, os.path.join(core.VERIF, "translators"))
+        import t_exitcodes
+        try:
+            allcodes = t_exitcodes.codes(ombuild.REPO)
+        except Exception as ex:
+            allcodes = {}; ck.violation("exit-codes", "cannot read the ExceptionCode enums: %s" % ex, dict(kind="exitcode"), found_input=False)
+        for enum, es in allcodes.items():
+            for nm, v in es:
+                edist["enumerators"] = edist.get("enumerators", 0) + 1
+                if v % 256 == 0 or not (0 < v < 256):
+                    emis += 1
+                    ck.violation("exit status of %s::%s" % (enum, nm), "exception code %s::%s = %d: a tool that returns e.code() (om_minverser, om_matrix_convert, om_geometry_info) exits with status %d for this failure%s" % (enum, nm, v, v % 256, " = SUCCESS" if v % 256 == 0 else ""),
+                                 dict(kind="exitcode", enum=enum, enumerator=nm, value=v))
+        # every tool that maps exceptions to its exit status, driven through many kinds of unusable input
+        xd = os.path.join(wd, "exitc"); os.makedirs(xd, exist_ok=True)
+        def putf(name, data):
+            pth = os.path.join(xd, name); open(pth, "wb").write(data); return pth
+        bad_inputs = [("missing", os.path.join(xd, "missing.txt")), ("empty text", putf("empty.txt", b"")), ("words", putf("words.txt", b"hello world\n")),
+                      ("ragged 3/5", putf("r35.txt", b"1 2 3\n4 5 6 7 8\n")), ("ragged 3/1", putf("r31.txt", b"1 2 3\n4\n")), ("ragged 2/4/1", putf("r241.txt", b"1 2\n3 4 5 6\n7\n")),
+                      ("ragged 4/2", putf("r42.txt", b"1 2 3 4\n5 6\n")), ("number then word", putf("nw.txt", b"1 2 3\n4 x 6\n")), ("one value", putf("one.txt", b"7\n")),
+                      ("3-byte binary", putf("b3.bin", b"\x01\x02\x03")), ("binary header only", putf("hdr.bin", b"\x05\x00\x00\x00")), ("binary inconsistent", putf("inc.bin", b"\x05\x00\x00\x00" + b"\x00" * 13)),
+                      ("garbage mat", putf("g.mat", b"not a matlab file")), ("garbage tex", putf("g.tex", b"ascii\nFLOAT\nxx\n")), ("unknown suffix garbage", putf("g.xyz", b"\xff\xfe\x00garbage")),
+                      ("directory", xd)]
+        good = putf("good.txt", b"4 1\n1 3\n")
+        tenv = dict(os.environ); tenv.update(OMP_NUM_THREADS="1", OPENBLAS_NUM_THREADS="1")
+        libs = ombuild.find_libs(bdir); tenv["LD_LIBRARY_PATH"] = ":".join(sorted({os.path.dirname(x) for x in libs.values()})) + ":" + tenv.get("LD_LIBRARY_PATH", "")
+        TL = {"om_matrix_convert": (os.path.join(bdir, "apps", "tools", "om_matrix_convert"), lambda i, o: ["-i", i, "-o", o]),
+              "om_minverser": (os.path.join(bdir, "apps", "om_minverser"), lambda i, o: [i, o]),
+              "om_matrix_info": (os.path.join(bdir, "apps", "tools", "om_matrix_info"), lambda i, o: [i])}
+        runs = [(t, lab, pth, os.path.join(xd, "out.txt")) for t in TL for lab, pth in bad_inputs]
+        runs += [("om_matrix_convert", "good input, output suffix " + sx, good, os.path.join(xd, "out." + sx)) for sx in ("xyz", "", "txt~", "BIN")]
+        runs += [("om_matrix_convert", "good input, output in a missing directory", good, os.path.join(xd, "nodir", "o.txt"))]
+        for tname, lab, pth, outp in runs:
+            exe, mk = TL[tname]
+            if not os.path.exists(exe): continue
+            if os.path.isfile(outp): os.remove(outp)
+            try:
+                pr = subprocess.run([exe] + mk(pth, outp), stdout=subprocess.PIPE, stderr=subprocess.PIPE, env=tenv, timeout=120, cwd=xd); status = pr.returncode
+                said = (pr.stderr + pr.stdout).decode(errors="replace")
+            except subprocess.TimeoutExpired:
+                status = "timeout"; said = ""
+            edist[tname] = edist.get(tname, 0) + 1
+            complained = re.search(r"Exception|Unable to|Error|error|Cannot|Unexpected", said) is not None
+            wrote = os.path.isfile(outp)
+            needs_out = tname != "om_matrix_info"
+            if status == 0 and (complained or (needs_out and not wrote)):
+                emis += 1
+                msg = [l for l in said.split("\n") if re.search(r"Exception|Unable|rror|Cannot|Unexpected", l)][:1]
+                ck.violation("%s exits 0 on %s" % (tname, lab), "%s %s printed `%s`, %s, and exited with status 0; required: a non-zero exit status" % (tname, " ".join(os.path.basename(a) if os.sep in a else a for a in mk(pth, outp)), (msg or ["<nothing>"])[0][:120], "wrote no output file" if not wrote else "wrote an output file"),
+                             dict(kind="exitcode", tool=tname, input=lab, status=status))
+
+    # ---------------- (k) non-conformable operands of the other container pairs (guards implicit in the accessors) -----------------
+    kdist = {}; kmis = 0
+    BIN = {60: "SparseMatrix*Vector", 61: "SparseMatrix*Matrix", 62: "SparseMatrix*SymMatrix", 63: "SparseMatrix*SparseMatrix", 64: "SparseMatrix+SparseMatrix",
+           65: "Matrix*SparseMatrix", 66: "FastSparseMatrix*Vector", 67: "SparseMatrix::transpose()*Vector", 68: "SparseMatrix::setlin"}
+    def bin_spec(id_, n, c, a):
+        if id_ in (60, 66): return a[0] == c
+        if id_ == 67: return a[0] == n
+        if id_ in (61, 63): return a[0] == c
+        if id_ == 62: return a[0] == c
+        if id_ == 64: return a[0] == n and a[1] == c
+        if id_ == 65: return a[0] == c                  # Matrix(n,c) * Sparse(bn,bm): c == bn
+        if id_ == 68: return (None if a[1] < c else True) if (a[0] < n and a[1] <= c) else False
+    if rp is None or rp.get("kind") == "binop":
+        kc = []
+        for id_ in BIN:
+            for n in (1, 2, 3, 5):
+                for c in (1, 2, 4):
+                    for d in (-2, -1, 0, 1, 2, 5):
+                        if id_ in (60, 66, 62): args = [max(c + d, 0)]
+                        elif id_ == 67: args = [max(n + d, 0)]
+                        elif id_ in (61, 63, 65): args = [max(c + d, 0), rng.randint(1, 3)]
+                        elif id_ == 64: args = [max(n + (d if rng.random() < 0.5 else 0), 0), max(c + d, 0)]
+                        else: args = [rng.choice([0, n - 1, n]), max(c + d, 0)]
+                        kc.append("c18 1 %d %d %d %s" % (id_, n, c, " ".join(map(str, args))))
+        kc = sorted(set(kc))
+        if rp is not None: kc = rp["cases"]
+        rc, ko, err = core.run_harness(hb, kc, wd, tag="bin")
+        for c, o in zip(kc, ko):
+            w = [int(x) for x in c.split()[2:]]; id_, n, cc, a = w[0], w[1], w[2], w[3:]
+            kdist[BIN[id_]] = kdist.get(BIN[id_], 0) + 1
+            sp = bin_spec(id_, n, cc, a); t = o.split()
+            if o == "CRASH skipped" or t[0] == "7": continue
+            what = None
+            if o.startswith("CRASH"): what = "crashed"
+            elif sp is False and t[0] == "1": what = "returned normally although the operands are not conformable"
+            elif sp is True and t[0] != "1": what = "threw on conformable operands"
+            if what:
+                kmis += 1
+                longer = id_ in (60, 67) and sp is False and t[0] == "1" and a[0] > (cc if id_ == 60 else n)
+                sig = "SparseMatrix*Vector accepts a vector longer than ncol()" if longer else "%s: %s" % (BIN[id_], "non-conformable accepted" if sp is False else what)
+                ck.violation(sig, "%s with receiver %dx%d (an entry stored in every column) and argument shape %s %s; required: %s. case `%s`" % (BIN[id_], n, cc, a, what, "an exception" if sp is False else "a result", c),
+                             dict(kind="binop", cases=[c], impl=[o]))
+
     res = ck.proof_result
-    ck.cov.update(evaluations=len(acases) + sum(ldist.values()) + wn + 1 + sum(sdist.values()) + sum(xdist.values()) + len(gdist) + sum(fdist.values()) + sum(ndist.values()) + sum(rdist.values()), distinct_nontrivial=len(set(acases)) + sum(ldist.values()) + wn,
+    ck.cov.update(evaluations=len(acases) + sum(ldist.values()) + wn + 1 + sum(sdist.values()) + sum(xdist.values()) + len(gdist) + sum(fdist.values()) + sum(ndist.values()) + sum(rdist.values()) + sum(edist.values()) + sum(kdist.values()), distinct_nontrivial=len(set(acases)) + sum(ldist.values()) + wn,
                   rule="accessor cases: (method, nlin, ncol, arguments) with arguments aimed at the guard boundary (n-1, n, n+1, 2^31, 2^32-1, 2^32-n, 65535/65536, wrap-around ranges), shapes 0..%d, ~60%% expected to throw; lookups: every present name and 12 near-miss names on 4 lookup functions; I/O: prepared paths x entry points; write faults: every stream writer x 2 sizes x (boundary + random byte limits, /dev/full, missing directory); distinct = distinct case lines" % (7 if quick else 40),
                   samples=acases[:2] + ["c18 2 <kind> <name>", "c18 4 <kind> <fmt> <n> <k bytes>"], op_distribution=adist, expected_throws=throws,
                   accessor_mismatches=amis, lookup_io_distribution=ldist, lookup_io_mismatches=lmis,
-                  write_fault_distribution=wdist, write_fault_cases=wn, write_fault_mismatches=wmis, write_fault_file_size_equals_model=wexact, suffix_selection_distribution=sdist, suffix_selection_mismatches=smis, other_writers_distribution=xdist, other_writers_mismatches=xmis, singular_matrices=gdist, load_state_distribution=fdist, load_state_mismatches=fmis, named_entry_points=ndist, named_entry_mismatches=nmis, reused_geometry=rdist, reused_geometry_mismatches=rmis,
+                  write_fault_distribution=wdist, write_fault_cases=wn, write_fault_mismatches=wmis, write_fault_file_size_equals_model=wexact, suffix_selection_distribution=sdist, suffix_selection_mismatches=smis, other_writers_distribution=xdist, other_writers_mismatches=xmis, singular_matrices=gdist, load_state_distribution=fdist, load_state_mismatches=fmis, named_entry_points=ndist, named_entry_mismatches=nmis, reused_geometry=rdist, reused_geometry_mismatches=rmis, exit_status=edist, exit_status_mismatches=emis, container_binary_ops=kdist, container_binary_ops_mismatches=kmis,
                   big_symmatrix_witness=big, traces_validated_against_impl=len(acases) + sum(ldist.values()) + wn)
     ck.cov["trusted_base"] += ["translator translators/t_accessors.py (restricted C++ expression grammar -> Gallina with explicit 2^32 / 2^64 reduction); validated each run by evaluating the generated definitions against the real calls",
                                "outcome-class models coq/Geom/Lookups.v, coq/Maths/WriteFault.v (hand-written, tied by the sweeps)",
